@@ -125,6 +125,7 @@ class Facts:
         self.consts = d['consts']
         self.layouts = _AliasDict(d['layouts'], canon=self.canon_type)
         self.statics = d['statics']
+        self.aliases = d.get('aliases', {})
         # index for trait-method resolution: (trait, name, base self) -> fn
         self.by_trait = {}
         self.by_trait_name = collections.defaultdict(list)
@@ -194,7 +195,7 @@ class Facts:
             yield f
 
     def fn(self, f, spec=None):
-        key = (f['path'], tuple(sorted((spec or {}).items())), f.get('_inlined') is not None)
+        key = (f['path'], tuple(sorted((spec or {}).items())), f.get('_inlined') is not None, f.get('_policy', ''))
         F = self._fn_cache.get(key)
         if F is None:
             F = Fn(self, f, spec)
@@ -238,7 +239,7 @@ class Facts:
 
     def callees_of(self, f):
         """Resolved crate-local callees (class-hierarchy approximation) plus closures created."""
-        key = (f['path'], f.get('_inlined') is not None)
+        key = (f['path'], f.get('_inlined') is not None, f.get('_policy', ''))
         c = self._callee_cache.get(key)
         if c is None:
             c = []
@@ -418,6 +419,7 @@ class Fn:
         self._dom = None
         self._dbg = None
         self._fw = None
+        self._refining = False
         self.reach = None
         self._term_cache = {}
 
@@ -461,7 +463,61 @@ class Fn:
         return None
 
     # ---------- CFG
+    def _refine_enum_switches(self):
+        """Prune `match opt { Some(..) => .., None => .. }` when `opt` is, on every reachable definition, a known variant
+        (`let codes = if COMPRESSED { Some(..) } else { None }` under a specialisation): the other arm is dead."""
+        changed = False
+        for bi in sorted(self.reach):
+            if bi in self.const_switch:
+                continue
+            t = self.blocks[bi]['t']
+            if t['k'] != 'switch' or 'p' not in t['d'] or t['d']['p']['proj']:
+                continue
+            ds = [d for d in self.defs.get(t['d']['p']['l'], []) if d[0] in self.reach]
+            if len(ds) != 1 or ds[0][1] != 'assign' or ds[0][2]['k'] != 'discr':
+                continue
+            tm = norm(self.place_term(ds[0][2]['p']))
+            if isinstance(tm, tuple) and tm[:1] == ('agg',) and isinstance(tm[1], str) and tm[1].startswith('adt:') and tm[1].rsplit(':', 1)[1].isdigit():
+                v = int(tm[1].rsplit(':', 1)[1])
+                tgt = None
+                for val, to in t['arms']:
+                    if int(val) == v:
+                        tgt = to
+                if tgt is None:
+                    tgt = t['else']
+                self.succ[bi] = [tgt]
+                self.const_switch[bi] = v
+                changed = True
+        if changed:
+            self.pred = collections.defaultdict(list)
+            for a, ss in self.succ.items():
+                for x in ss:
+                    self.pred[x].append(a)
+        return changed
+
     def dom(self):
+        if self._dom is None and not self._refining:
+            self._refining = True
+            try:
+                for _ in range(3):
+                    self._dom = None
+                    self._compute_dom()
+                    self._term_cache = {}
+                    self._fw = None
+                    if not self._refine_enum_switches():
+                        break
+                    self._dom = None
+                if self._dom is None:
+                    self._compute_dom()
+                    self._term_cache = {}
+                    self._fw = None
+            finally:
+                self._refining = False
+        elif self._dom is None:
+            self._compute_dom()
+        return self._dom
+
+    def _compute_dom(self):
         if self._dom is None:
             n = len(self.blocks)
             reach = set()
@@ -576,7 +632,7 @@ class Fn:
         if ds[0][1] != 'assign':
             return None
         rv = ds[0][2]
-        if rv['k'] == 'agg' and 'adt' in rv['kind']:
+        if rv['k'] == 'agg' and ('adt' in rv['kind'] or 'tuple' in rv['kind']):
             return rv
         if rv['k'] == 'use' and 'p' in rv['a'] and not rv['a']['p']['proj']:
             return self._agg_of(rv['a']['p']['l'], depth + 1)
@@ -928,6 +984,29 @@ def norm(t):
             return ('const', v)
     if k == 'bin' and t[1] == 'Rem' and t[3][0] == 'const' and isinstance(t[3][1], int) and t[3][1] > 0 and (t[3][1] & (t[3][1] - 1)) == 0:
         return norm(('bin', 'BitAnd', t[2], ('const', t[3][1] - 1)))
+    if k == 'bin' and t[1] in ('Add', 'Sub'):
+        # (x + c1) - c2, (x - c1) + c2 ...: fold the constants (the value read back after `i += 1` minus 1 is i)
+        def split(u):
+            if isinstance(u, tuple) and u[:1] == ('bin',) and u[1] in ('Add', 'Sub'):
+                a, b = u[2], u[3]
+                if b[:1] == ('const',) and isinstance(b[1], int):
+                    return a, (b[1] if u[1] == 'Add' else -b[1])
+                if u[1] == 'Add' and a[:1] == ('const',) and isinstance(a[1], int):
+                    return b, a[1]
+            return None
+        a, b = t[2], t[3]
+        inner = None
+        if b[:1] == ('const',) and isinstance(b[1], int) and split(a):
+            base, c = split(a)
+            inner = (base, c + (b[1] if t[1] == 'Add' else -b[1]))
+        elif t[1] == 'Add' and a[:1] == ('const',) and isinstance(a[1], int) and split(b):
+            base, c = split(b)
+            inner = (base, c + a[1])
+        if inner is not None:
+            base, c = inner
+            if c == 0:
+                return base
+            return norm(('bin', 'Add', ('const', c), base)) if c > 0 else ('bin', 'Sub', base, ('const', -c))
     if k == 'bin' and t[1] in ('Add', 'Mul', 'BitAnd', 'BitOr', 'BitXor') and repr(t[2]) > repr(t[3]):
         return ('bin', t[1], t[3], t[2])
     if k == 'bin' and t[1] in CMP:
@@ -1125,7 +1204,7 @@ def pred_summary(facts, f, spec=None):
                 contrib.append(atoms)
         t = b['t']
         if t['k'] == 'call' and t['dest']['l'] == 0 and not t['dest']['proj']:
-            atoms = list(path_atoms(F, bi, _expand=False)) + [('true', norm(F.call_term(t)), None)]
+            atoms = list(path_atoms(F, bi, _expand=False)) + flatten_conj([one_atom(term_atoms(norm(F.call_term(t))))])
             contrib.append(atoms)
     if len(contrib) == 1 and not any(has_unknown(a[1]) or (isinstance(a[2], tuple) and has_unknown(a[2])) for a in contrib[0]):
         facts._pred_cache[key] = contrib[0]
@@ -1150,9 +1229,23 @@ def closure_apply(facts, clo, args, spec=None):
     return norm(ret)
 
 
-def opt_view(facts, t, spec=None, depth=0):
+def _opaque_opt(t):
+    """An Option-valued term the algebra cannot open (foreign call such as `to_usize`): Some under the opaque atom
+    `discr(t) is 1`, payload in the `if let Some(v)` form."""
+    return [([('is', ('discr', t), 1)], ('field', ('variant', t, 'Some'), '0'))]
+
+
+def opt_view(facts, t, spec=None, depth=0, receiver=False):
     """Option-valued term -> list of (atoms, payload): it is Some(payload) exactly when one of the conjunctions holds.
-    Covers Some/None, bool::then/then_some, Option::map/filter/and_then, checked_sub and crate helpers; None = unknown."""
+    Covers Some/None, bool::then/then_some, Option::map/filter/and_then, checked_sub, slice::get and crate helpers;
+    None = unknown (an unknown *receiver* of a combinator is kept as an opaque Option)."""
+    v = _opt_view(facts, t, spec, depth)
+    if v is None and receiver and isinstance(t, tuple) and t and t[0] in ('call', 'field', 'param', 'index'):
+        return _opaque_opt(norm(t))
+    return v
+
+
+def _opt_view(facts, t, spec=None, depth=0):
     if depth > 5 or not isinstance(t, tuple) or not t:
         return None
     t = norm(t)
@@ -1172,7 +1265,7 @@ def opt_view(facts, t, spec=None, depth=0):
     if is_opt and name in ('as_ref', 'as_mut', 'copied', 'cloned', 'as_deref', 'as_deref_mut') and args:
         return opt_view(facts, args[0], spec, depth + 1)
     if is_opt and name == 'map' and len(args) == 2:
-        inner = opt_view(facts, args[0], spec, depth + 1)
+        inner = opt_view(facts, args[0], spec, depth + 1, receiver=True)
         if inner is None:
             return None
         out = []
@@ -1183,7 +1276,7 @@ def opt_view(facts, t, spec=None, depth=0):
             out.append((a, v if v is not None else ('unknown', 'map', 0)))
         return out
     if is_opt and name == 'filter' and len(args) == 2:
-        inner = opt_view(facts, args[0], spec, depth + 1)
+        inner = opt_view(facts, args[0], spec, depth + 1, receiver=True)
         if inner is None:
             return None
         out = []
@@ -1194,7 +1287,7 @@ def opt_view(facts, t, spec=None, depth=0):
             out.append((a + _truth(c), p))
         return out
     if is_opt and name == 'and_then' and len(args) == 2:
-        inner = opt_view(facts, args[0], spec, depth + 1)
+        inner = opt_view(facts, args[0], spec, depth + 1, receiver=True)
         if inner is None:
             return None
         out = []
@@ -1206,6 +1299,8 @@ def opt_view(facts, t, spec=None, depth=0):
             for a2, p2 in v2:
                 out.append((a + a2, p2))
         return out
+    if name == 'get' and len(args) == 2 and ('slice' in t[1] or 'Vec' in t[1]):
+        return [([canon_atom('<', args[1], ('call', 'len', (args[0],)))], ('index', args[0], args[1]))]
     if name == 'checked_sub' and len(args) == 2:
         return [([canon_atom('<=', args[1], args[0])], norm(('bin', 'Sub', args[0], args[1])))]
     tgt = facts.call_targets.get(t[1])
@@ -1290,6 +1385,36 @@ def resolve_payloads(facts, t, spec=None, depth=0):
     return tuple(resolve_payloads(facts, x, spec, depth + 1) if isinstance(x, tuple) else x for x in t)
 
 
+def bool_view(facts, t, spec=None, depth=0):
+    """Boolean call term -> conjunction of atoms under which it is true (is_some_and / is_some / map_or(false, ..)), or None."""
+    if not (isinstance(t, tuple) and t[:1] == ('call',)) or depth > 5:
+        return None
+    name = t[1].split('::')[-1]
+    args = t[2]
+    if 'Option' not in t[1]:
+        return None
+    if name == 'is_some' and len(args) == 1:
+        v = opt_view(facts, args[0], spec, depth + 1, receiver=True)
+        return v[0][0] if v is not None and len(v) == 1 else None
+    if name == 'is_some_and' and len(args) == 2:
+        v = opt_view(facts, args[0], spec, depth + 1, receiver=True)
+        if v is None or len(v) != 1:
+            return None
+        c = closure_apply(facts, args[1], [v[0][1]], spec)
+        if c is None:
+            return None
+        return v[0][0] + _truth(c)
+    if name == 'map_or' and len(args) == 3 and args[1] == ('const', 0):
+        v = opt_view(facts, args[0], spec, depth + 1, receiver=True)
+        if v is None or len(v) != 1:
+            return None
+        c = closure_apply(facts, args[2], [v[0][1]], spec)
+        if c is None:
+            return None
+        return v[0][0] + _truth(c)
+    return None
+
+
 def expand_predicates(facts, atoms, depth=0, spec=None):
     out = []
     for a in atoms:
@@ -1319,6 +1444,11 @@ def expand_predicates(facts, atoms, depth=0, spec=None):
                     out.append(('or', tuple(('and', tuple(c), None) for c, _ in cases), None))
                     out.append(a)
                     continue
+        if a[0] == 'true' and isinstance(a[1], tuple) and a[1] and a[1][0] == 'call' and depth < 3:
+            bv = bool_view(facts, a[1], spec, depth)
+            if bv is not None:
+                out.extend(expand_predicates(facts, bv, depth + 1, spec))
+                continue
         if a[0] == 'true' and isinstance(a[1], tuple) and a[1] and a[1][0] == 'call' and depth < 2:
             tgt = facts.call_targets.get(a[1][1])
             if tgt is not None:
@@ -1678,6 +1808,7 @@ def _facts_inlined(self, f, policy=None):
         self._inl_cache = {}
     if c is None:
         c = inline_body(self, f, policy)
+        c['_policy'] = key[1]
         self._inl_cache[key] = c
     return c
 
@@ -1819,3 +1950,60 @@ def backward_slice(F, start_locals, through_calls=True):
         for o in writes.get(l, []):
             work.extend(_operand_locals(o))
     return S
+
+
+def forward_self_stores(f):
+    """Copy of a method's MIR in which a load of `self.f` that executes after a store `self.f = v` in the same body reads
+    `v` (store-to-load forwarding for scalar fields of self): terms built on the copy distinguish the cursor before and
+    after `self.i += 1`."""
+    import copy
+    g = copy.deepcopy({k: v for k, v in f.items() if k not in ('_mentions',)})
+    locs = g['locals']
+    blocks = g['blocks']
+    stores = []   # (bi, si, field name, temp local)
+    for bi, b in enumerate(blocks):
+        new_s = []
+        for s_ in b['s']:
+            pr = s_['lhs']['proj']
+            if s_['lhs']['l'] == 1 and len(pr) == 2 and pr[0] == '*' and isinstance(pr[1], dict) and 'f' in pr[1] \
+                    and pr[1].get('ty', '') in ('usize', 'u64', 'u32', 'isize', 'i64'):
+                n = len(locs)
+                locs.append(pr[1].get('ty', 'usize'))
+                new_s.append({'lhs': {'l': n, 'proj': []}, 'rv': s_['rv'], 'line': s_.get('line', ''), 'macros': s_.get('macros', [])})
+                s2 = dict(s_)
+                s2['rv'] = {'k': 'use', 'a': {'p': {'l': n, 'proj': []}}}
+                new_s.append(s2)
+                stores.append((bi, len(new_s) - 1, pr[1]['f'], n))
+            else:
+                new_s.append(s_)
+        b['s'] = new_s
+    g['_stores'] = stores
+    return g
+
+
+def apply_forwarding(facts, f):
+    """-> (Fn over the forwarded copy, list of (field, temp local))"""
+    g = forward_self_stores(f)
+    F = Fn(facts, g)
+    dom = F.dom()
+    for bi, si, fld, n in g['_stores']:
+        for bj, b in enumerate(g['blocks']):
+            if bj not in F.reach:
+                continue
+            if not (bj == bi or (bi in dom[bj] and bj != bi)):
+                continue
+            # a later store to the same field ends the forwarding range; keep it simple: only forward when this is the only store
+            if sum(1 for x in g['_stores'] if x[2] == fld) != 1:
+                continue
+            for sj, s_ in enumerate(b['s']):
+                if bj == bi and sj <= si:
+                    continue
+                rv = s_['rv']
+                if rv['k'] == 'use' and 'p' in rv['a']:
+                    pl = rv['a']['p']
+                    if pl['l'] == 1 and len(pl['proj']) == 2 and pl['proj'][0] == '*' and isinstance(pl['proj'][1], dict) and pl['proj'][1].get('f') == fld:
+                        s_['rv'] = {'k': 'use', 'a': {'p': {'l': n, 'proj': []}}}
+    # loops: a block that dominates the store may also run after it; forwarding is only applied forward of the store in
+    # dominance order, which is exact for the loop-free bodies of next()/next_back()
+    F2 = Fn(facts, g)
+    return F2, [(fld, n) for _, _, fld, n in g['_stores']]
